@@ -1,0 +1,40 @@
+// Copyright 2020-2025 Buf Technologies, Inc.
+//
+// Licensed under the Apache License, Version 2.0 (the "License");
+// you may not use this file except in compliance with the License.
+// You may obtain a copy of the License at
+//
+//      http://www.apache.org/licenses/LICENSE-2.0
+//
+// Unless required by applicable law or agreed to in writing, software
+// distributed under the License is distributed on an "AS IS" BASIS,
+// WITHOUT WARRANTIES OR CONDITIONS OF ANY KIND, either express or implied.
+// See the License for the specific language governing permissions and
+// limitations under the License.
+
+//go:build verif
+
+package slicesext
+
+// Contracts for the gocv verifier (see /verif/DESIGN.md). Comment-only.
+//
+// Generic helpers used by the kernels of C02/C06/C08: proved once here, used by contract elsewhere.
+//
+//@ func MapKeysToSlice(m) (r)
+//@   property C02 C06
+//@   ensures only-keys: forall j int :: 0 <= j && j < len(r) ==> r[j] in m
+//@   ensures all-keys: forall k K :: k in m ==> (exists j int :: 0 <= j && j < len(r) && r[j] == k)
+//@   loop 0 invariant forall j int :: 0 <= j && j < len(s) ==> s[j] in m && s[j] in $visited
+//@   loop 0 invariant forall k K :: k in $visited ==> (exists j int :: 0 <= j && j < len(s) && s[j] == k)
+//
+// Output order depends on the key set only, not on map enumeration order.
+//@ func MapKeysToSortedSlice(m) (r)
+//@   property C02 C06
+//@   ensures only-keys: forall j int :: 0 <= j && j < len(r) ==> r[j] in m
+//@   ensures all-keys: forall k K :: k in m ==> (exists j int :: 0 <= j && j < len(r) && r[j] == k)
+//@   ensures sorted: forall i int, j int :: 0 <= i && i < j && j < len(r) ==> r[i] <= r[j]
+//
+//@ func ToStructMap(s) (r)
+//@   property C02 C06
+//@   ensures r != nil && (forall k T :: (k in r) <==> (exists j int :: 0 <= j && j < len(s) && s[j] == k))
+//@   loop 0 invariant m != nil && (forall k T :: (k in m) <==> (exists j int :: 0 <= j && j < $i && s[j] == k))
